@@ -174,8 +174,25 @@ def run(ctx, rep):
         else:
             swb, swt = sw
             arms = {v: tb for v, tb in swt["v"]}
-            growers = {strip_generics(x.path) for x in F.bodies if x.promoted is None and x.path.startswith("metadata::update_file::") and any(re.search(r"BlockSize::checked_add$", callee_name(t)) for _, t in x.calls())}
-            shrinkers = {strip_generics(x.path) for x in F.bodies if x.promoted is None and x.path.startswith("metadata::update_file::") and any(re.search(r"BlockSize::checked_sub$", callee_name(t)) for _, t in x.calls())}
+            def uses_op(x, opname):
+                """calls BlockSize::<op> directly or hands it to a helper as a function value"""
+                for _, t in x.calls():
+                    if re.search(r"BlockSize::%s$" % opname, callee_name(t)):
+                        return True
+                    for a in t["a"]:
+                        kf = (a.get("k") or {}).get("fn") if isinstance(a, dict) else None
+                        if kf and re.search(r"BlockSize::%s$" % opname, kf.get("path") or ""):
+                            return True
+                for bl in x.blocks:
+                    for st_ in bl["s"]:
+                        for o in rv_operands(st_["rv"]):
+                            kf = (o.get("k") or {}).get("fn") if isinstance(o, dict) else None
+                            if kf and re.search(r"BlockSize::%s$" % opname, kf.get("path") or ""):
+                                return True
+                return False
+            helpers = [x for x in F.bodies if x.promoted is None and x.kind != "Closure" and x.path.startswith("metadata::update_file::")]
+            growers = {strip_generics(x.path) for x in helpers if uses_op(x, "checked_add") and not uses_op(x, "checked_sub")}
+            shrinkers = {strip_generics(x.path) for x in helpers if uses_op(x, "checked_sub") and not uses_op(x, "checked_add")}
             rep.check("C10.dir", "one helper grows padding (checked_add), one shrinks (checked_sub)", len(growers) == 1 and len(shrinkers) == 1 and growers != shrinkers, loc_of(b), "%s / %s" % (growers, shrinkers))
             for val, rel in ((-1, "A<B"), (1, "A>B"), (0, "A==B")):
                 tb = arms.get(val)
